@@ -68,7 +68,7 @@ TRUSTED = ["hash256 is a parameter of every theorem; the driver instantiates it 
 ASSUMPTIONS = ["list allocation succeeds (a forged transaction count of 2^31 makes MerkleTree allocate 2^32 list slots)",
                "int/float comparison in CPython is exact"]
 
-MAX_REAL_TOTAL = 1 << 20   # above this the real MerkleTree is only run under a memory limit, not compared
+MAX_REAL_TOTAL = 1 << 16   # above this the real MerkleTree is only run under a memory limit, not compared
 
 
 class UnknownOp(Exception):
@@ -173,12 +173,12 @@ def py_build(ids, matches):
 
 # ------------------------------------------------------------------------------- implementation side
 def _mem_limited(fn):
-    """run fn() with room for 160 MiB more address space (a forged count makes MerkleTree allocate `total` slots)"""
+    """run fn() with room for 8 MiB more address space (a forged count makes MerkleTree allocate `total` slots)"""
     soft, hard = resource.getrlimit(resource.RLIMIT_AS)
     try:
         with open("/proc/self/statm") as f:
             vm = int(f.read().split()[0]) * resource.getpagesize()
-        resource.setrlimit(resource.RLIMIT_AS, (vm + (160 << 20), hard))
+        resource.setrlimit(resource.RLIMIT_AS, (vm + (8 << 20), hard))
         return fn()
     finally:
         resource.setrlimit(resource.RLIMIT_AS, (soft, hard))
@@ -322,7 +322,9 @@ def finding_of(line):
             proof = int.from_bytes(H.hash256(b.serialize()), "little")
         except Exception:
             return None
-        if b.bits[3] < 3 or neg or ovf or value == 0 or proof == value:
+        if b.bits[3] < 3:
+            return "F17c"
+        if neg or ovf or value == 0 or proof == value:
             return "F17e"
     return None
 
@@ -500,7 +502,7 @@ def run(ctx):
         lines.append(("merkle_root_spec", f"merkle_root_spec {blist(ids)}"))
 
     # ---- tree sizing: every power of two ± 1 up to 2^32 (expressions of the source only; nothing is allocated)
-    totals = set([0, 1, 2, 3, 5, 6, 7, 9, 10, 11, 12, 13])
+    totals = set([1, 2, 3, 5, 6, 7, 9, 10, 11, 12, 13])
     for k in range(0, 33):
         for d in (-1, 0, 1):
             if 1 <= 2 ** k + d <= 2 ** 32:
@@ -766,6 +768,7 @@ def run(ctx):
     _dbg(ctx, 'model answered')
     todo = [r for (k, _), r in zip(lines, reqs) if k != "build"]
     impl_answers = dict(zip(todo, pmap(_impl_of, todo, workers=ctx.workers, chunksize=16)))
+    known_seen = {}
     for (kind, l), model in zip(lines, answers):
         if model == "FUEL":
             raise MachineryError(f"model ran out of fuel on: {str(l)[:200]}")
@@ -778,7 +781,14 @@ def run(ctx):
         line = l
         impl = impl_answers[line]
         op = line.split(" ", 1)[0]
-        fid = finding_of(line) if impl != model else None
+        fid = finding_of(line) if (impl != model and op in SPEC_OPS) else None
+        if fid is not None and ctx.findings.get(fid, {}).get("state") == "known":
+            # inside the input predicate of a known finding: a few are recorded as tagged violations (the check
+            # turns them into the KNOWN-FINDING line), the rest are only counted
+            known_seen[(kind, fid)] = known_seen.get((kind, fid), 0) + 1
+            if known_seen[(kind, fid)] > 3:
+                rec.count(f"{kind}:known-{fid}")
+                continue
         if rec.compare(kind, {"line": line}, impl, model, determined=(op in SPEC_OPS), key=line[:300],
                        nontrivial=len(line) > len(op) + 3, finding=fid):
             rec.sample(kind, {"request": line[:600], "answer": model[:300]})
